@@ -242,7 +242,9 @@ class Renderer:
 
     def comment(self):
         if self.r.random() < self.cfg.get("comment_rate", 0.15):
-            return "(%s \"%s\")%s" % (self.kw("comment"), self.r.choice(["c", "a (b) c", "x;y", ""]), self.sp())
+            if self.r.random() < 0.15:
+                return "(%s)%s" % (self.kw("comment"), self.sp())      # a comment without any string at all
+            return "(%s \"%s\")%s" % (self.kw("comment"), self.r.choice(["c", "a (b) c", "x;y", "", ""]), self.sp())
         return ""
 
     def prop(self, p):
@@ -331,7 +333,9 @@ class Renderer:
                 s.append("(%s %s (%s %s %s)%s)" % (
                     self.kw("instance"), self.namedef(inst["id"], inst["name"]), self.kw("viewRef"),
                     self.ref(self.cfg.get("view", "netlist")), cr,
-                    "".join(" " + self.prop(p) for p in inst["props"])))
+                    # (a comment may stand in front of, or between, the properties of an instance)
+                    "".join((" " + self.comment().strip() if r.random() < 0.5 else "") + " " + self.prop(p)
+                            for p in inst["props"])))
             netitems = []
             for net in cell["nets"]:
                 if net["bus"]:
